@@ -1414,7 +1414,8 @@ class LinearOperator(object):
         :return: The diagonal (or batch of diagonals) of :math:`\mathbf A`.
         """
 
-        if not offset == 0 and ((dim1 == -2 and dim2 == -1) or (dim1 == -1 and dim2 == -2)):
+        ndim = self.dim()
+        if offset != 0 or {dim1 % ndim, dim2 % ndim} != {ndim - 2, ndim - 1}:
             raise NotImplementedError(
                 "LinearOperator#diagonal is only implemented for when :attr:`dim1` and :attr:`dim2` are equal "
                 "to -2 and -1, respectfully, and :attr:`offset = 0`. "
